@@ -41,7 +41,7 @@ fn chains(conv: Conv, family: Family, maxn: usize, n: u64) -> Work {
 fn workloads(prop: &str, thorough: bool) -> Vec<Work> {
     use Conv::*;
     use Family::*;
-    let k: u64 = if thorough { 12 } else { 1 };
+    let k: u64 = if thorough { 24 } else { 3 };
     let mut w: Vec<Work> = vec![Work::Scenarios];
     let exh = |w: &mut Vec<Work>, phase: exhaustive::Phase| {
         if thorough {
